@@ -241,6 +241,7 @@ func NewGen(seed int64, g *GenesisSpec, naccts int, p Profile) *Gen {
 			`{"maxValidatorCnt":"3"}`, `{"maxValidatorCnt":"6","minValidatorStake":"3000000000000000000"}`, `{"slashRatio":"34"}`,
 			`{"rewardPerPower":"3000000000"}`, `{"signedBlocksWindow":"3","minSignedBlocks":"1"}`, `{"lazyApplyingBlocks":"1"}`,
 			`{"minSelfStakeRatio":"10"}`, `{"maxVotingPeriodBlocks":"4","minVotingPeriodBlocks":"1"}`,
+			`{"lazyRewardBlocks":"1"}`, `{"lazyRewardBlocks":"9"}`, `{"maxValidatorCnt":"2"}`, `{"minValidatorStake":"9000000000000000000"}`,
 		}}
 }
 
@@ -286,7 +287,22 @@ func (g *Gen) NextTx(v *View) *Op {
 		op.Tag = "replay:" + op.Tag
 		return &op
 	}
-	kind := g.pick(g.P.W)
+	ws := g.P.W
+	if ws["voting"] > 0 {
+		// campaign: while a proposal's voting window is open, votes are four times as likely (so that proposals are
+		// adopted, lose their majority again, and parameter changes really happen in random histories)
+		for _, p := range v.Props {
+			if int64(p.Start) <= int64(v.H)+1 && int64(v.H) <= int64(p.End) {
+				ws = map[string]int{}
+				for k, w := range g.P.W {
+					ws[k] = w
+				}
+				ws["voting"] *= 4
+				break
+			}
+		}
+	}
+	kind := g.pick(ws)
 	price := u256(govLimbs(v.Gov, "gasPrice"))
 	minGas := govLimbs(v.Gov, "minTrxGas").Uint64()
 	gas := minGas + uint64(g.Rng.Intn(5))
@@ -479,6 +495,9 @@ func (g *Gen) NextTx(v *View) *Op {
 			}
 		}
 		choice := int32(g.Rng.Intn(len(p.Opts) + 1))
+		if g.Rng.Intn(2) == 0 {
+			choice = 0
+		}
 		if int(choice) == len(p.Opts) {
 			if g.Rng.Intn(3) == 0 {
 				tag = "voting:badchoice"
